@@ -163,6 +163,9 @@ func (g *ImgGen) FV(o VolOpts) *hu.FV {
 			if g.R.Intn(4) == 0 {
 				f.Secs = append(f.Secs, &hu.Sec{Kind: "sl", Type: 0x19, Body: []byte{1, 2, 3}})
 			}
+			if g.R.Intn(3) == 0 { // the wrapper's own name behind the nested volume
+				f.Secs = append(f.Secs, &hu.Sec{Kind: "su", Name: []rune(namePool[g.R.Intn(len(namePool))])})
+			}
 		} else {
 			f = g.File(max(24, (o.Budget-(off-pre))/2), ai)
 			if g.R.Intn(12) == 0 {
